@@ -51,6 +51,10 @@ pub fn text_label(rng: &mut Rng, len: usize) -> Vec<u8> {
 /// Host name in the supported text grammar. `max_wire`: bound on the wire length.
 /// Never purely numeric (status of all-numeric names is not fixed by the property).
 pub fn text_name(rng: &mut Rng, max_wire: usize) -> Name {
+    if rng.chance(1, 24) {
+        // the root name, written "."
+        return Name::root();
+    }
     let nl = match rng.below(12) {
         0 => rng.range(5, 40),
         1 => 1,
@@ -79,6 +83,9 @@ pub fn text_name(rng: &mut Rng, max_wire: usize) -> Name {
 }
 
 pub fn name_to_text(n: &Name, trailing_dot: bool) -> String {
+    if n.is_root() {
+        return ".".to_string();
+    }
     let mut s = String::new();
     for (i, l) in n.0.iter().enumerate() {
         if i > 0 {
